@@ -216,6 +216,27 @@ func (e *Engine) instType(tn string, pkg *types.Package) types.Type {
 		}
 		return nil
 	}
+	if k := strings.Index(tn, "["); k > 0 && strings.HasSuffix(tn, "]") {
+		// Generic[T1, T2]: a generic named type of the package instantiated at resolved arguments
+		G := e.instType(tn[:k], pkg)
+		named, _ := G.(*types.Named)
+		if named == nil {
+			return nil
+		}
+		var targs []types.Type
+		for _, a := range splitTopCommas(tn[k+1 : len(tn)-1]) {
+			A := e.instType(a, pkg)
+			if A == nil {
+				return nil
+			}
+			targs = append(targs, A)
+		}
+		I, err := types.Instantiate(nil, named, targs, true)
+		if err != nil {
+			return nil
+		}
+		return I
+	}
 	if strings.HasPrefix(tn, "[") {
 		if k := strings.Index(tn, "]"); k > 0 {
 			var n int64
